@@ -38,6 +38,8 @@ class Collector(object):
         n_new = n_known = 0
         summary = []
         printed_known = set()
+        import shutil
+        shutil.rmtree(os.path.join(boot.VERIF, 'replays', self.prop), ignore_errors=True)    # artefacts of this run only
         for vkey in self.order:
             e = self.by_key[vkey]
             kf = findings.match(self.prop, vkey)
